@@ -38,9 +38,15 @@ def run(run, tier, seed, stage, bins):
         for rep in range(repeats):
             env = {"TSAN_OPTIONS": "halt_on_error=0:exitcode=0:second_deadlock_stack=1:log_path=%s/tsan.%d" % (logdir, rep)}
             # sequential repeats: each episode already uses up to 16 threads
-            res = core.run_worker(exe, ["--ops", str(ops), "--tier", tier, "--hang", "120"], "tsan", seed + 1000 * rep, 0, episodes, 0, 1,
-                                  timeout=stage.get("timeout", 3000), extra_env=env)
-            run.add_worker_results([res], stage["name"])
+            try:
+                res = core.run_worker(exe, ["--ops", str(ops), "--tier", tier, "--hang", "120"], "tsan", seed + 1000 * rep, 0, episodes, 0, 1,
+                                      timeout=stage.get("timeout", 3000), extra_env=env)
+                run.add_worker_results([res], stage["name"])
+            except core.Inconclusive as e:
+                # a worker that dies outside any episode (memory already corrupted by a race, say) makes the run inconclusive on its own;
+                # the race reports ThreadSanitizer wrote before that are still evidence and are judged below
+                run.inconclusive.append("repeat %d: %s" % (rep, str(e)[:400]))
+                run.count("tsan.repeats_with_lost_worker")
         seen = {}
         for f in sorted(glob.glob(os.path.join(logdir, "tsan.*"))):
             with open(f, errors="replace") as fh:
